@@ -6,6 +6,8 @@ import (
 	"bufio"
 	"bytes"
 	"encoding/json"
+	"errors"
+	"io"
 	"math/big"
 	"math/rand"
 	"os"
@@ -17,6 +19,7 @@ import (
 	secp256k1 "gitlab.com/yawning/secp256k1-voi"
 	"gitlab.com/yawning/secp256k1-voi/secec"
 	"gitlab.com/yawning/secp256k1-voi/secec/bitcoin"
+	"gitlab.com/yawning/secp256k1-voi/secec/h2c"
 )
 
 func init() {
@@ -200,6 +203,13 @@ func contentFor(rng *rand.Rand, cls string, small []xy) []byte {
 		return append(append([]byte{}, be32(big.NewInt(5))[:]...), be32(bigN)[:]...)
 	case "cmp_r_ge_n":
 		return append(append([]byte{}, be32(bigN)[:]...), be32(big.NewInt(7))[:]...)
+	case "sig_qinf": // r || s || v with s R = e G for the digest n - 1 (class sc_nm1): the recovered key would be the point at infinity
+		k := big.NewInt(int64(2 + rng.Intn(50)))
+		R := mulG(k)
+		unc := R.UncompressedBytes()
+		rr := new(big.Int).Mod(new(big.Int).SetBytes(unc[1:33]), bigN)
+		sv := new(big.Int).Mod(new(big.Int).Neg(new(big.Int).ModInverse(k, bigN)), bigN) // e / k with e = -1
+		return append(append(append([]byte{}, be32(rr)[:]...), be32(sv)[:]...), unc[64]&1)
 	}
 	return []byte{1, 2, 3}
 }
@@ -282,7 +292,7 @@ func driveAPI(c *ctx) {
 			if si >= ctxLen && (strings.HasPrefix(s.Op, "key.") || strings.HasPrefix(s.Op, "skey.") || strings.HasPrefix(s.Op, "spub.") || strings.HasPrefix(s.Op, "btc.")) {
 				keyOps = true
 			}
-			if s.Op == "key.Generate" || s.Op == "skey.Generate" { // the generated key is only known by looking at it
+			if s.Op == "key.Generate" || s.Op == "skey.Generate" || s.Op == "key.SignHedged" { // the generated key / hedged signature is only known by looking at it
 				generates = true
 			}
 			if si >= ctxLen && s.Op == "env.LoadBuf" && len(steps) <= 24 { // the byte-class enumerations keep the one-in-three rule
@@ -756,6 +766,79 @@ func execAPI(c *ctx, rng *rand.Rand, pl *apiPool, s skelStep, small []xy, blind 
 				panic("harness: no Schnorr public key object")
 			}
 			reply = b2i(pl.spub.Verify(pl.buf[s.M], pl.buf[s.B]))
+		case "sc.Set":
+			pl.sc[s.S].Set(pl.sc[s.P])
+		case "sc.One":
+			pl.sc[s.S].One()
+		case "sc.Zero":
+			pl.sc[s.S].Zero()
+		case "sc.NewFrom":
+			pl.sc[s.S] = secp256k1.NewScalarFrom(pl.sc[s.P])
+		case "sc.NewFromUint64":
+			pl.sc[s.S] = secp256k1.NewScalarFromUint64([...]uint64{0, 1, 0xffffffffffffffff}[s.C])
+		case "sc.NewFromBytes":
+			a := as32(pl.buf[s.B])
+			if a == nil {
+				panic("harness: not a 32-byte buffer")
+			}
+			n, fl := secp256k1.NewScalarFromBytes(a)
+			pl.sc[s.S] = n
+			reply = int(fl)
+		case "sc.NewFromCanonicalBytes":
+			a := as32(pl.buf[s.B])
+			if a == nil {
+				panic("harness: not a 32-byte buffer")
+			}
+			n, err := secp256k1.NewScalarFromCanonicalBytes(a)
+			failObj(err, n)
+			if err == nil {
+				pl.sc[s.S] = n
+			}
+		case "pt.SplitUncompressed":
+			x, odd := secp256k1.SplitUncompressedPoint(pl.buf[s.B])
+			pl.buf[s.M] = append([]byte{}, x...) // the caller copies what it keeps: the function documents no ownership
+			reply = int(odd)
+		case "key.SignRaw":
+			if pl.priv == nil {
+				panic("harness: no private key object")
+			}
+			r, sv, v, err := pl.priv.SignRaw(secec.RFC6979SHA256(), pl.buf[s.M])
+			failObj(err, r, sv)
+			if err == nil {
+				pl.sc[s.S] = r
+				pl.sc[s.T] = sv
+				reply = int(v)
+			}
+		case "key.VerifyRaw":
+			if pl.pub == nil {
+				panic("harness: no public key object")
+			}
+			reply = b2i(pl.pub.VerifyRaw(pl.buf[s.M], pl.sc[s.S], pl.sc[s.T]))
+		case "key.SignHedged":
+			if pl.priv == nil {
+				panic("harness: no private key object")
+			}
+			var rd io.Reader = bytes.NewReader(bytes.Repeat([]byte{0x42}, 32))
+			if s.C != 0 {
+				rd = io.MultiReader(bytes.NewReader(bytes.Repeat([]byte{0x42}, 31)), failingReader{})
+			}
+			sig, err := pl.priv.Sign(rd, pl.buf[s.M], &secec.ECDSAOptions{Encoding: secec.EncodingCompact})
+			failObj(err, sig)
+			if err == nil {
+				pl.buf[s.B] = sig
+			}
+		case "h2c.RO", "h2c.NU":
+			fn := h2c.Secp256k1_XMD_SHA256_SSWU_RO
+			if s.Op == "h2c.NU" {
+				fn = h2c.Secp256k1_XMD_SHA256_SSWU_NU
+			}
+			n, err := fn(pl.buf[s.B], pl.buf[s.M])
+			failObj(err, n)
+			if err == nil {
+				pl.pt[s.V] = n
+			}
+		case "btc.IsBip66":
+			reply = b2i(bitcoin.IsValidSignatureEncodingBIP0066(pl.buf[s.B]))
 		case "env.LoadBuf":
 			pl.buf[s.B] = contentFor(rng, s.Cls, small)
 			content = hx(pl.buf[s.B])
@@ -786,6 +869,11 @@ func execAPI(c *ctx, rng *rand.Rand, pl *apiPool, s skelStep, small []xy, blind 
 	}
 	c.E("api.Step", append(kv, pl.project()...)...)
 }
+
+// failingReader is an entropy source that has nothing left.
+type failingReader struct{}
+
+func (failingReader) Read([]byte) (int, error) { return 0, errors.New("verif: entropy source failed") }
 
 // ctrlWord maps the model's control class to a control word: 0, 1, or (class 2) a word that is neither.
 func ctrlWord(c, salt int) uint64 {
